@@ -24,6 +24,7 @@ DOC = {
  "C13.R5": "replace_worker: takes only the in-flight map, does not touch the queue except through get_next_non_expired_job, and always (every path) tries to dispatch the queue head; dispatch_job's SendErr arm pushes the returned job to the front",
  "C13.R6": "siblings agree: the five route_message bodies (choose -> enqueue | Backlog(job)); the two supervision arms of the factory; the limiter wrapper returns RateLimited(job) without consulting the inner router",
  "C13.R7": "worker_complete dispatches the next job only when the completion matched an in-flight key; worker_finished_job retires a draining worker only if it is not working, otherwise keeps it; routes more work only to non-draining workers",
+ "C13.R9": "Factory::post_stop hands every waiting job to the discard handler with reason Shutdown: the factory queue (Queue::pop_front cycle) and each worker's private queue (taken through a WorkerProperties helper or directly)",
  "C13.R8": "= C15.R5: Drained only when all of pool.values() (unfiltered) are available and the queue is empty; the factory stops itself only on is_drained()",
 }
 
@@ -375,13 +376,64 @@ def r7(run, db):
 
 Q = ["dflt"]
 TH = ["dflt", "rc", "atr", "astd"]
+def r9(run, db):
+    """shutdown disposes of every waiting job, wherever it waits.  Accepted jobs wait in the factory's queue (factory-queued
+    routers) or in a worker's private queue (every other router, and sticky hand-overs).  Factory::post_stop hands the
+    factory queue to the discard handler with reason Shutdown; the worker queues are owned by the same state and would
+    otherwise be dropped with it -- accepted jobs that are neither handled, nor discarded, nor returned."""
+    WQ = fields(db).wp_queue
+    ps = [f for f in db.crate_fns("ractor") if re.search(r"factoryimpl::Factory<.*Actor>::post_stop::\{closure#0\}$", f.id)]
+    run.anchor("Factory::post_stop", len(ps), 1)
+    if not ps:
+        return
+    f = ps[0]
+    run.saw(len(f.blocks), f)
+    def fq_names(fn, op):
+        out = []
+        for r in fn.origins(op, through=lambda c: 0 if c.matches(r"Deref>::deref$|DerefMut>::deref_mut$|Deref::deref$|DerefMut::deref_mut$") else None):
+            for e in r.get("proj", []) + r.get("trail", []):
+                n = proj_field_name(e) if e.startswith("f:") else None
+                if n:
+                    out.append(n)
+        return out
+    # helpers of WorkerProperties that empty the private queue and hand the jobs out
+    takers = {}
+    for g in db.crate_fns("ractor"):
+        if "WorkerProperties" not in g.id or "Job<" not in (g.raw.get("output") or ""):
+            continue
+        for c in g.calls():
+            if c.matches(r"mem::take$|mem::replace$|VecDeque::<T, A>::drain$|VecDeque::<T, A>::pop_front$|VecDeque::<T, A>::pop_back$|VecDeque::<T, A>::split_off$") and WQ in fq_names(g, c.args[0]):
+                takers[g.id] = g
+    disc = [c for c in f.calls() if c.callee and c.callee.endswith("DiscardHandler::discard")]
+    run.anchor("post_stop discard sites", len(disc), 1, f.where())
+    fam_calls = [c for c in f.calls()]
+    src_factory = src_worker = False
+    THR = lambda cc: 0 if cc.matches(r"IntoIterator>::into_iter$|IntoIterator::into_iter$|Iterator::next$|Iterator>::next$|DerefMut>::deref_mut$|Deref>::deref$") else None
+    for c in disc:
+        reason = f.value_consts(c.args[1])
+        run.check(reason and reason[0].endswith("DiscardReason::Shutdown"), "post_stop|reason-shutdown", "jobs discarded at stop carry DiscardReason::Shutdown", "post_stop discards with reason %s" % reason, c.where())
+        for r in f.origins(c.args[2], through=THR):
+            if r["k"] != "call":
+                continue
+            x = r["call"]
+            if x.callee and x.callee.endswith("Queue::pop_front"):
+                src_factory = True
+            if (x.callee in takers) or (x.resolved in takers):
+                src_worker = True
+            if x.matches(r"mem::take$|VecDeque::<T, A>::drain$|VecDeque::<T, A>::pop_front$") and WQ in fq_names(f, x.args[0]):
+                src_worker = True
+    run.check(src_factory, "post_stop|factory-queue-discarded", "every job left in the factory queue is handed to the discard handler (Shutdown)", "post_stop does not discard the factory queue", f.where())
+    run.check(src_worker, "post_stop|worker-queues-discarded", "every job left in a worker's private queue is handed to the discard handler (Shutdown)",
+              "post_stop discards only the factory's own queue: jobs that were accepted and are waiting in a worker's private queue (field `%s`; every non-factory-queueing router, sticky hand-overs) are dropped with the state -- never handled, never discarded, never returned" % WQ, f.where())
+
+
 def r8(run, db):
     """= C15.R5: the factory stops itself only when drained, and drained means every worker still in the pool is idle"""
     from . import c15
     c15.r5(run, db)
 
 
-RULES = [{"id": "C13.R%d" % i, "fn": f, "quick": Q, "thorough": TH} for i, f in enumerate([r1, r2, r3, r4, r5, r6, r7, r8], 1)]
+RULES = [{"id": "C13.R%d" % i, "fn": f, "quick": Q, "thorough": TH} for i, f in enumerate([r1, r2, r3, r4, r5, r6, r7, r8, r9], 1)]
 from .etype import witness_rule
 RULES.append({"id": "C13.W", "fn": witness_rule(['W4JobNoClone', 'W6JobMoved']), "quick": [], "thorough": [], "no_db": True})
 DOC["C13.W"] = 'E-TYPE witnesses W4 (Job::clone is E0599) and W6 (use of a job after moving it into a dispatch message is E0382)'
